@@ -285,10 +285,21 @@ def portOf (o : Oracles) (value : Bytes) : Bytes :=
 def joinHostPort (host port : Bytes) : Bytes :=
   if host.contains 58 then [91] ++ host ++ [93, 58] ++ port else host ++ [58] ++ port
 
+/-- `strings.Cut(host, "%")`: an IPv6 zone is not part of the address -/
+def cutZone (host : Bytes) : Bytes := host.takeWhile (· ≠ 37)
+
 /-- one comma-separated element, already trimmed -/
 def maskValue (o : Oracles) (m4 m6 : Option (List UInt8)) (value : Bytes) : Bytes :=
-  match o.parseIP (hostOf o value) with
+  match o.parseIP (cutZone (hostOf o value)) with
   | none => value                        -- `output += value + ", "; continue`
+  | some ip =>
+    if (portOf o value).isEmpty then o.ipStr (maskedOf m4 m6 ip)
+    else joinHostPort (o.ipStr (maskedOf m4 m6 ip)) (portOf o value)
+
+/-- the same element BEFORE the zone fix: `net.ParseIP(host)` on the host with its zone -/
+def maskValueOld (o : Oracles) (m4 m6 : Option (List UInt8)) (value : Bytes) : Bytes :=
+  match o.parseIP (hostOf o value) with
+  | none => value
   | some ip =>
     if (portOf o value).isEmpty then o.ipStr (maskedOf m4 m6 ip)
     else joinHostPort (o.ipStr (maskedOf m4 m6 ip)) (portOf o value)
